@@ -1194,6 +1194,7 @@ func (e *diskEndpoint) Transition(ctx context.Context, transitions []*core.Chang
 		execBefore = d.walkTree(e.side)
 	}
 	results, problems, missing, err := e.inner.Transition(ctx, transitions)
+	h.noteTransitionReturned(e.side)
 	if execBefore != nil {
 		d.checkExecutabilityKept(e.side, invoked, transitions, execBefore)
 	}
